@@ -53,7 +53,7 @@ pub fn check_value(origin: &str, v: &Version, loose: bool, st: &mut Stats) -> Re
     if !same5(v, &w) {
         return Err(Failure::new("roundtrip-changes-fields", format!("{}: {} prints as {:?} which parses to {}", origin, fields_text(v), p, fields_text(&w))));
     }
-    if let Err(m) = display_survives_failing_writer(v, &p) {
+    if let Err(m) = display_survives_failing_writer(v, &p, &|s| Version::parse(s).map(|w| same5(v, &w)).unwrap_or(false)) {
         return Err(Failure::new("display-depends-on-history", format!("{}: {}", origin, m)));
     }
     if v.is_prerelease() == v.pre_release.is_empty() || w.is_prerelease() != v.is_prerelease() {
